@@ -124,7 +124,7 @@ class Explorer:
             return d
         ft = ctx.feasible(s)
         ff = ctx.feasible(z3.Not(s))
-        if ft and ff and ctx.n_quant:
+        if ft and ff and ctx.n_quant and getattr(self, 'quant_prune', True):
             ft = ctx.feasible_full(s)
             ff = ctx.feasible_full(z3.Not(s)) if ft else True
         # forced branches are recorded too (alt=False) so that replays stay index-aligned
